@@ -34,6 +34,9 @@ fn churn(args: &[String]) {
     // every receiver is dropped first; the remaining sender keeps operating (its sends are refused) while sender
     // handles are cloned and dropped
     let no_recv = args.iter().any(|a| a == "--no-receivers");
+    // the long-lived handles fall silent for a dozen cycles every now and then while a helper handle keeps adding
+    // and removing streams (their tokens lag, retirements pile up past the hand-over threshold), then resume
+    let quiet = args.iter().any(|a| a == "--quiet-bursts");
     let mut out = open_w(arg(args, "--out")).unwrap_or_else(|| Box::new(std::io::sink()));
     rt::enter(None);
     {
@@ -46,7 +49,7 @@ fn churn(args: &[String]) {
     }
     let name = format!("churn-{}{}-c{}{}{}", family, if fut { "F" } else { "" }, cap,
                        if early_drop { "-early" } else { "" },
-                       if traffic { "-traffic" } else if no_recv { "-norecv" } else { "" });
+                       if traffic { "-traffic" } else if no_recv { "-norecv" } else if quiet { "-quiet" } else { "" });
     writeln!(out, "{}", json!({"e":"reset","scn":name.clone(),"fl":family,"fut":fut,"cap":cap,"wait":"busy","run":1})).unwrap();
     for round in 0..2 {
         let blocks0 = rt::rt().lock().allocs.len();
@@ -74,6 +77,31 @@ fn churn(args: &[String]) {
             dummy = Some(dtx);
         }
         for i in 1..=cycles {
+            if quiet && (i % 40) < 12 {
+                let mut helper = rx.dup().unwrap();
+                match &helper {
+                    H::BR(_) | H::BFR(_) => {
+                        let a = helper.add_stream().unwrap();
+                        drop(a);
+                    }
+                    _ => {
+                        let c = helper.dup().unwrap();
+                        drop(c);
+                    }
+                }
+                let _ = helper.try_recv();
+                drop(helper);
+                if i == next_ck || i == cycles {
+                    let st = rt::rt().lock();
+                    let blocks = st.allocs.len() as i64 - blocks0 as i64;
+                    let hook_bytes: usize = st.allocs.values().map(|a| a.0).sum();
+                    drop(st);
+                    if round == 1 { writeln!(out, "{}", json!({"e":"ckpt","k":i,"blocks":blocks,"hook_bytes":hook_bytes,
+                                               "heap":LIVE_BYTES.load(AO::Relaxed)})).unwrap(); }
+                    next_ck *= 10;
+                }
+                continue;
+            }
             if no_recv {
                 let t2 = tx.dup().unwrap();
                 let _ = t2.try_send(P::new(v));
